@@ -116,7 +116,7 @@ def body_topology(ctx, sizes, with_edges):
 ENCODINGS = [dict(start_index=s, fill=f, transposed=t) for s in (0, 1) for f in ('nan', 'attr') for t in (False, True)]
 
 
-def body_encoding(ctx, mesh, supply, coords_as_coords, edge_order, two_name='Two'):
+def body_encoding(ctx, mesh, supply, coords_as_coords, edge_order, two_name='Two', fill_first=False):
     """The same mesh in every file encoding gives the same normalised tables; supplied tables are used verbatim."""
     from emsarray.conventions.ugrid import Mesh2DTopology, UGrid
     nodes, faces = builders.MESHES[mesh]
@@ -137,7 +137,7 @@ def body_encoding(ctx, mesh, supply, coords_as_coords, edge_order, two_name='Two
                numpy.array([numpy.mean([nodes[v][1] for v in f]) - 0.125 for f in faces]))
     ctx.note('encoding', dict(enc, supply=list(supply), coords=coords_as_coords, edge_order=edge_order))
     ds = builders.ugrid(mesh, supply=supply, coords_as_coords=coords_as_coords, edge_order=(order if supply else None),
-                        face_xy=face_xy, with_edges=True, **enc)
+                        face_xy=face_xy, with_edges=True, edge_face_fill_first=fill_first, **enc)
     base = builders.ugrid(mesh, fill='nan', with_edges=True)
     if two_name != 'Two':
         # UGRID does not name the size-2 dimension of the edge tables; here it is called something else and
@@ -201,6 +201,11 @@ def cases(tier):
         for supply in (('edge_node',), ('edge_node', 'face_edge', 'edge_face', 'face_face')):
             yield Case(f'encoding:{mesh}:{"+".join(supply)}:coords0:reversed:two=nv', body_encoding,
                        dict(mesh=mesh, supply=supply, coords_as_coords=False, edge_order='reversed', two_name='nv'), max_paths=200)
+    # an edge-face table whose boundary rows are written [fill, face]; face adjacency derived from it
+    for mesh in meshes[:2] if q else meshes:
+        for supply in (('edge_node', 'edge_face'), ('edge_node', 'face_edge', 'edge_face')):
+            yield Case(f'encoding:{mesh}:{"+".join(supply)}:coords0:identity:fill-first', body_encoding,
+                       dict(mesh=mesh, supply=supply, coords_as_coords=False, edge_order='identity', fill_first=True), max_paths=200)
     for mesh in meshes:
         for supply in supplies:
             if ({'face_edge', 'edge_face'} & set(supply)) and 'edge_node' not in supply:
